@@ -388,9 +388,31 @@ func (u *Unit) inlinedCalls(own []*Call) []*Call {
 		if h == nil || h == u.Root() {
 			continue
 		}
+		// parameters of the helper → arguments at this call (identifiers and constants only: expressions whose value
+		// cannot change between the call and the use inside the helper)
+		subst := map[types.Object]ast.Expr{}
+		if sig, ok := cl.Callee.Type().(*types.Signature); ok && !sig.Variadic() {
+			for i := 0; i < sig.Params().Len() && i < len(cl.Expr.Args); i++ {
+				a := cl.Arg(i)
+				switch ast.Unparen(a).(type) {
+				case *ast.Ident, *ast.BasicLit, *ast.SelectorExpr:
+					subst[sig.Params().At(i)] = a
+				}
+			}
+		}
 		for _, hc := range h.Calls() {
 			c2 := *hc
 			c2.Loc = cl.Loc
+			c2.Loc.Orig = &OrigLoc{G: h.Graph(), L: hc.Loc}
+			if len(subst) > 0 {
+				c2.Subst = map[types.Object]ast.Expr{}
+				for k, v := range hc.Subst {
+					c2.Subst[k] = v
+				}
+				for k, v := range subst {
+					c2.Subst[k] = v
+				}
+			}
 			if hc.Inlined != nil {
 				c2.Inlined = cl
 			} else {
@@ -467,3 +489,33 @@ func (p *Prog) markTransparent() {
 
 // IsTransparent: see markTransparent.
 func (p *Prog) IsTransparent(f *types.Func) bool { return f != nil && p.transparent[f.Origin()] }
+
+// WithHelpers: the unit followed by the units of the transparent helpers it
+// calls (code that moved out of it), recursively — for rules that read the
+// syntax of a function body rather than its calls.
+func (u *Unit) WithHelpers() []*Unit {
+	out := []*Unit{u}
+	seen := map[*Unit]bool{u: true}
+	for i := 0; i < len(out) && i < 8; i++ {
+		for _, cl := range out[i].ownCallsForHelpers() {
+			if cl.Callee == nil || !u.Prog.transparent[cl.Callee.Origin()] {
+				continue
+			}
+			if h := u.Prog.UnitOf(cl.Callee); h != nil && !seen[h] {
+				seen[h] = true
+				out = append(out, h)
+			}
+		}
+	}
+	return out
+}
+
+func (u *Unit) ownCallsForHelpers() []*Call {
+	var out []*Call
+	for _, cl := range u.Calls() {
+		if cl.Inlined == nil {
+			out = append(out, cl)
+		}
+	}
+	return out
+}
